@@ -357,6 +357,7 @@ def check_net(case, ps, acc, viols):
         want[it["name"]] = {f: it["v"][NET_COL[f]] for f in NET_FIELDS}
     feature = ("colon_in_name" if any(":" in n for n in want) else "old_format_no_blank" if net["style"] == "old"
                else "plain")
+    acc.count("net_format:" + (net["style"] if net["header"] else "empty_file"))
     try:
         got = ps.net_io_counters(pernic=True, nowrap=False)
     except Exception as e:  # noqa: BLE001
@@ -435,6 +436,8 @@ def check_disk(case, ps, acc, viols):
                           f"{e!r}: {ctx}"))
     if mode == "sysfs":
         acc.count("sysfs_variant_cases")
+    if devs:
+        acc.count("layout:" + layout)
     want = {d["name"]: disk_expected(disk, d) for d in devs}
     # per device
     if res[True][0] == "ok":
